@@ -1,12 +1,322 @@
 """contract overlay for the fns of grammar/lua/expr.rs — see build.py for the format.
-Owned by the 'expr' side: the other side reads the requires/ensures written here as ASSUMED contracts."""
-LEMMAS = None            # e.g. 'expr_lemmas.rs' (hand-written lemmas with verified bodies, included before the fns)
-TYPES = {}               # extra extracted types / consts: key -> framework item dict
-SHIMS = []               # extra hand-written shim files (specification only) under units/c02_grammar/
-EXTRA_RULES = []         # (name, regex, repl, doc[, flags]) named rewrite rules
-MUTANTS = []
+Owned by the 'expr' side: the other side reads the requires/ensures written here as ASSUMED contracts.
+
+What is proved for every fn f(p: &mut LuaParser, ..) of expr.rs (unit c02_gexpr; again, together with stat.rs/mod.rs, in c02_grammar):
+  requires ginv(old(p)) [std], gfirst(old(p)), nosoft(old(p))
+  ensures  ginv(final(p)), gstep(old(p), final(p)) [std], nosoft(final(p)), gkeep(old(p), final(p)),
+           and for the fns returning ParseResult:  Ok(cm) ==> cm_live(&cm, final(p))   (precede may be called on the result)
+  + the labelled progress clauses below; every loop has a `decreases`; every fn has `decreases grem(old(p)), <rank>`.
+All preconditions of bump / mark / push_node_end / Marker::{set_kind,complete} / CompleteMarker::precede are discharged at the call
+sites inside the real bodies (no `unreachable!()`, no index panic, no overflow of the lookahead / brace counters).
+"""
+import re
+from vc import rules as R
+from vc import rustlex as L
+from vc.extract import Undecided
+
+GM = 'crates/emmylua_parser/src/grammar/mod.rs'
+KM = 'crates/emmylua_parser/src/kind/mod.rs'
+KO = 'crates/emmylua_parser/src/kind/lua_operator_kind.rs'
+KT = 'crates/emmylua_parser/src/kind/lua_type_operator_kind.rs'
+KF = 'crates/emmylua_parser/src/kind/lua_features.rs'
+PC = 'crates/emmylua_parser/src/parser/parser_config.rs'
+DERIVE_KIND = '#[derive(Clone, Copy, PartialEq, Eq, Structural)]'
+
+
+def _tt(text, toks, i):
+    return L.tok_text(text, toks[i]) if 0 <= i < len(toks) else ''
+
+
+# callees that may occur inside a dropped error report: all of them are reads (`&self`) or the message constructors
+_REPORT_CALLEES = {'push_error', 'syntax_error_from', 't', 'current_token_range', 'current_token'}
+
+
+def _only_reads(text, what):
+    toks = L.code_tokens(text)
+    for i in range(len(toks)):
+        if toks[i][0] == 'ident' and (_tt(text, toks, i + 1) == '(' or (_tt(text, toks, i + 1) == '!' and _tt(text, toks, i + 2) == '(')):
+            name = _tt(text, toks, i)
+            if name not in _REPORT_CALLEES:
+                raise Undecided('%s: the error report calls `%s`, which is not on the list of pure callees' % (what, name))
+        if _tt(text, toks, i) == '?' or (_tt(text, toks, i) == 'return' and toks[i][0] == 'ident'):
+            raise Undecided('%s: control flow inside an error report' % what)
+
+
+@R.rule('ge-drop-push-error')
+def ge_drop_push_error(text, **_):
+    """`p.push_error(LuaParseError::syntax_error_from(MSG, RANGE));` -> `vx_note_error();`
+    `LuaParser::push_error` only appends to `errors`, a field projected out of `LuaParser` (no contract mentions it). The rule checks
+    that MSG / RANGE contain no call other than `t!(..)`, `p.current_token()`, `p.current_token_range()` (both `&self` reads, proved
+    panic-free in the base unit) — so dropping the evaluation of the arguments drops no effect on the parser state. Trusted: `t!`,
+    `syntax_error_from`, `push_error` do not panic."""
+    n = 0
+    while True:
+        toks = L.code_tokens(text)
+        hit = None
+        for i in range(len(toks) - 4):
+            if _tt(text, toks, i) == 'p' and _tt(text, toks, i + 1) == '.' and _tt(text, toks, i + 2) == 'push_error' and _tt(text, toks, i + 3) == '(':
+                c = L.match_close(text, toks, i + 3)
+                if _tt(text, toks, c + 1) != ';':
+                    raise Undecided('ge-drop-push-error: push_error(..) is not a statement')
+                if _tt(text, toks, i + 4) != 'LuaParseError' or _tt(text, toks, i + 7) != 'syntax_error_from':
+                    raise Undecided('ge-drop-push-error: argument is not LuaParseError::syntax_error_from(..)')
+                _only_reads(text[toks[i][1]:toks[c][2]], 'ge-drop-push-error')
+                hit = (toks[i][1], toks[c + 1][2]); break
+        if not hit: break
+        text = text[:hit[0]] + 'vx_note_error();' + text[hit[1]:]
+        n += 1
+    return text, n
+
+
+@R.rule('ge-drop-error-msg')
+def ge_drop_error_msg(text, **_):
+    """`let error_msg = match p.current_token() { K => t!(..), .. };` -> removed (parse_simple_expr). The binding is used only as the
+    MSG argument of the `push_error` dropped by `ge-drop-push-error` (applied first; the rule checks that `error_msg` does not occur
+    anywhere else); its initialiser only reads `p.current_token()` and builds i18n strings."""
+    toks = L.code_tokens(text)
+    n = 0
+    for i in range(len(toks) - 4):
+        if _tt(text, toks, i) == 'let' and _tt(text, toks, i + 1) == 'error_msg' and _tt(text, toks, i + 2) == '=' and _tt(text, toks, i + 3) == 'match':
+            j = i + 4
+            while _tt(text, toks, j) != '{':
+                j = L.match_close(text, toks, j) + 1 if _tt(text, toks, j) in ('(', '[') else j + 1
+            c = L.match_close(text, toks, j)
+            if _tt(text, toks, c + 1) != ';':
+                raise Undecided('ge-drop-error-msg: unexpected shape')
+            _only_reads(text[toks[i][1]:toks[c][2]], 'ge-drop-error-msg')
+            new = text[:toks[i][1]] + text[toks[c + 1][2]:]
+            if re.search(r'\berror_msg\b', new):
+                raise Undecided('ge-drop-error-msg: error_msg is still used after ge-drop-push-error')
+            return new, 1
+    return text, n
+
+
+def _load_reader_rules():
+    import importlib.util, os
+    here = os.path.dirname(os.path.abspath(__file__))
+    spec = importlib.util.spec_from_file_location('unit_c01_reader_for_c02_expr', os.path.join(here, '..', 'c01_reader', 'unit.py'))
+    m = importlib.util.module_from_spec(spec)
+    spec.loader.exec_module(m)
+    return m
+
+
+_rd = _load_reader_rules()      # match-arm parser of unit c01_reader (`_matches`, `_blk`)
+
+
+@R.rule('ge-match-guard-if-chain')
+def ge_match_guard_if_chain(text, **_):
+    """a `match` on a `LuaTokenKind` value (Copy, field-less) that has guarded arms and ends in an unguarded `_` arm:
+    `match E { P1 => B1, P2 if G2 => B2, .., _ => Bn }` -> `{ let vx_m = E; if matches!(vx_m, P1) {B1} else if matches!(vx_m, P2) && (G2) {B2}
+    .. else {Bn} }`. Every pattern is an or-pattern of paths `LuaTokenKind::Variant` (checked: no bindings), so testing a pattern has no
+    effect; arms are tried in order, an arm is taken iff its pattern matches and its guard (if any) is true, the scrutinee is evaluated
+    once (Rust reference, "Match expressions"). Needed because Verus rejects or-pattern + guard, and loses the `final(p)` link of a
+    `&mut` parameter mutated inside a guarded arm (units/c01_reader/probe_guard_limitation.rs)."""
+    n = 0
+    while True:
+        hit = None
+        for toks, mi, (scrut, ob, cb, arms) in _rd._matches(text):
+            if any(a['guard'] for a in arms):
+                hit = (toks, mi, scrut, ob, cb, arms); break
+        if not hit: break
+        toks, mi, scrut, ob, cb, arms = hit
+        last = arms[-1]
+        if text[last['pat'][0]:last['pat'][1]] != '_' or last['guard']:
+            raise Undecided('ge-match-guard-if-chain: last arm is not an unguarded `_`')
+        parts = []
+        for a in arms[:-1]:
+            pat = text[a['pat'][0]:a['pat'][1]]
+            if not re.fullmatch(r'\s*LuaTokenKind::\w+(\s*\|\s*LuaTokenKind::\w+)*\s*', pat):
+                raise Undecided('ge-match-guard-if-chain: pattern is not an or-pattern of LuaTokenKind paths: ' + pat)
+            cond = 'matches!(vx_m, %s)' % ' '.join(pat.split())
+            if a['guard']: cond += ' && (%s)' % text[a['guard'][0]:a['guard'][1]]
+            parts.append('if %s %s' % (cond, _rd._blk(text, a)))
+        chain = ' else '.join(parts) + ' else ' + _rd._blk(text, last)
+        new = '{ let vx_m = %s; %s }' % (text[scrut[0]:scrut[1]], chain)
+        text = text[:toks[mi][1]] + new + text[toks[cb][2]:]
+        n += 1
+    return text, n
+
+
+EXTRA_RULES = [
+    ('ge-local-const', r'\bconst ([A-Z_]+): (i32|usize) = (\d+);', r'let \1: \2 = \3;',
+     'item statement `const NAME: T = <integer literal>;` inside a fn body -> `let NAME: T = <literal>;` at the same place (Verus has no '
+     'item statements; the constant is used only in the statements that follow it in the same block, as a value)'),
+]
+
+# ------------------------------------------------------------------------------------------------------------------------------
+# contract fragments
+# ------------------------------------------------------------------------------------------------------------------------------
+REQ = 'gfirst(old(p)), nosoft(old(p))'
+ENS = 'nosoft(final(p)), gkeep(old(p), final(p))'
+ENS_CM = ENS + ',\n        r matches Ok(cm) ==> cm_live(&cm, final(p)) /*@C02.expr.result-marker-live*/'
+PROG = 'final(p).token_index > old(p).token_index'
+HIDE = 'hide(l3::events_ok);'
+# loop invariant shared by every loop: the standard contract "so far"
+INV = 'ginv(p), gstep(old(p), p), gfirst(p), nosoft(p),'
+ERR = ['ge-drop-push-error']
+
+
+def loop(inv, dec, except_break=None):
+    return (('invariant_except_break\n    ' + except_break + '\n') if except_break else '') + 'invariant\n    ' + INV + '\n    ' + inv + '\ndecreases ' + dec
+
+
+def e_fn(**kw):
+    d = {'body_first': HIDE, 'attrs': '#[verifier::spinoff_prover]'}
+    d.update(kw)
+    return d
+
+
+ITEMS = {
+    'parse_expr': e_fn(
+        ret='r', rank=50, requires=REQ,
+        ensures=ENS_CM + ',\n        r is Ok ==> ' + PROG + ' /*@C02.expr.progress*/'),
+    'parse_sub_expr': e_fn(
+        ret='r', rank=40, requires=REQ, rules=ERR + ['ge-local-const'],
+        ensures=ENS_CM + ',\n        r is Ok ==> ' + PROG + ' /*@C02.expr.progress*/',
+        loops={0: loop('cm_live(&cm, p), p.token_index > old(p).token_index,', 'grem(p) /*@C02.expr.binop-loop-terminates*/')}),
+    'parse_simple_expr': e_fn(
+        ret='r', rank=30, requires=REQ, rules=ERR + ['ge-drop-error-msg', ('ge-match-guard-if-chain', {'count': 1})],
+        ensures=ENS_CM + ',\n        (r is Ok || old(p).current_token is TkName) ==> ' + PROG + ' /*@C02.expr.simple-progress*/'),
+    'parse_closure_expr': e_fn(
+        ret='r', requires=REQ, rules=ERR,
+        decreases='grem(old(p)), (if old(p).current_token is TkFunction { 20int } else { 300int })',
+        ensures=ENS_CM + ',\n        (r is Ok && old(p).current_token is TkFunction) ==> ' + PROG + ' /*@C02.expr.progress*/'),
+    'parse_short_function': e_fn(
+        ret='r', rank=20, rules=ERR,
+        requires=REQ + ',\n        old(p).current_token is TkName || old(p).current_token is TkLogicalOr || old(p).current_token is TkBitOr',
+        ensures=ENS_CM + ',\n        ' + PROG + ' /*@C02.expr.progress*/'),
+    'parse_param_list': e_fn(
+        ret='r', rank=10, requires=REQ + ',\n        !(open_token is TkEof), !(close_token is TkEof)', rules=ERR,
+        proof=[(r'match parse_param_name\(p, &mut is_vararg\) \{', 'before', 'let ghost ti0 = p.token_index;')],
+        ensures=ENS_CM + ',\n        r is Ok,\n        old(p).current_token == open_token ==> ' + PROG + ' /*@C02.expr.progress*/',
+        loops={0: loop('m_live(&m, p), p.mark_level > old(p).mark_level,\n    old(p).current_token == open_token ==> p.token_index > old(p).token_index,\n    gkeep(old(p), p),',
+                       'grem(p) /*@C02.expr.param-loop-terminates*/'),
+               1: loop('m_live(&m, p), p.mark_level > old(p).mark_level,\n    old(p).current_token == open_token ==> p.token_index > old(p).token_index,\n    gkeep(old(p), p), p.token_index >= ti0,',
+                       'grem(p) /*@C02.expr.recovery-loop-terminates*/')}),
+    'parse_param_name': e_fn(
+        ret='r', rank=5, requires=REQ, rules=ERR,
+        ensures=ENS_CM + ',\n        r is Ok ==> ' + PROG + ' /*@C02.expr.progress*/'),
+    'parse_table_expr': e_fn(
+        ret='r', rank=20, rules=ERR + ['ge-local-const'],
+        requires=REQ + ',\n        old(p).current_token is TkLeftBrace',
+        ensures=ENS_CM + ',\n        r is Ok,\n        ' + PROG + ' /*@C02.expr.progress*/',
+        loops={0: loop('m_live(&m, p), p.mark_level > old(p).mark_level, p.token_index > old(p).token_index,',
+                       'grem(p) /*@C02.expr.field-loop-terminates*/'),
+               1: loop('m_live(&m, p), p.mark_level > old(p).mark_level, p.token_index > old(p).token_index,\n'
+                       '    MAX_LOOKAHEAD == 50, lookahead_count <= 50,',
+                       '50 - lookahead_count /*@C02.expr.lookahead-loop-terminates*/',
+                       except_break='1 <= brace_count <= lookahead_count + 1,')}),
+    'parse_field_with_recovery': e_fn(
+        ret='r', rank=60, requires=REQ, rules=ERR,
+        ensures=ENS_CM + ',\n        r is Ok',
+        loops={0: loop('m_live(&m, p), p.mark_level > old(p).mark_level, p.token_index > old(p).token_index,',
+                       'grem(p) /*@C02.expr.recovery-loop-terminates*/')}),
+    'recover_to_table_boundary': e_fn(
+        rank=5, requires=REQ, ensures=ENS,
+        loops={0: loop('gkeep(old(p), p),', 'grem(p) /*@C02.expr.recovery-loop-terminates*/')}),
+    'parse_suffixed_expr': e_fn(
+        ret='r', rank=20, requires=REQ, rules=ERR,
+        ensures=ENS_CM + ',\n        (r is Ok || old(p).current_token is TkName) ==> ' + PROG + ' /*@C02.expr.progress*/',
+        loops={0: loop('cm_live(&cm, p), p.token_index > old(p).token_index,', 'grem(p) /*@C02.expr.suffix-loop-terminates*/')}),
+    'parse_name_or_special_function': e_fn(
+        ret='r', rank=10, rules=[],
+        requires=REQ + ',\n        old(p).current_token is TkName',
+        ensures=ENS_CM + ',\n        ' + PROG + ' /*@C02.expr.progress*/'),
+    'parse_index_struct': e_fn(
+        ret='r', rank=10, requires=REQ, rules=ERR,
+        ensures=ENS + ',\n        r is Ok ==> ' + PROG + ' /*@C02.expr.progress*/'),
+    'parse_safe_index_struct': e_fn(
+        ret='r', rank=10, requires=REQ, rules=ERR,
+        ensures=ENS),
+    'parse_args': e_fn(
+        ret='r', rank=25, requires=REQ, rules=ERR,
+        proof=[(r'loop \{(?=\s*match parse_expr\(p\) \{)', 'after', 'let ghost ti0 = p.token_index;')],
+        ensures=ENS_CM + ',\n        r is Ok ==> ' + PROG + ' /*@C02.expr.progress*/',
+        loops={0: loop('m_live(&m, p), p.mark_level > old(p).mark_level, p.token_index > old(p).token_index,',
+                       'grem(p) /*@C02.expr.args-loop-terminates*/'),
+               1: loop('m_live(&m, p), p.mark_level > old(p).mark_level, p.token_index > old(p).token_index, p.token_index >= ti0,',
+                       'grem(p) /*@C02.expr.recovery-loop-terminates*/')}),
+}
+
+# ------------------------------------------------------------------------------------------------------------------------------
+# extracted types / consts / helper fns
+# ------------------------------------------------------------------------------------------------------------------------------
+TYPES = {
+    'ParseFailReason': {'src': {'file': GM, 'kind': 'enum', 'name': 'ParseFailReason'}},
+    'ParseResult': {'src': {'file': GM, 'kind': 'type', 'name': 'ParseResult'}, 'rules': ['vis-pub']},
+    'LuaFeatures': {'src': {'file': KF, 'kind': 'enum', 'name': 'LuaFeatures'}, 'attrs': DERIVE_KIND},
+    'SpecialFunction': {'src': {'file': PC, 'kind': 'enum', 'name': 'SpecialFunction'}, 'attrs': DERIVE_KIND},
+    'UnaryOperator': {'src': {'file': KO, 'kind': 'enum', 'name': 'UnaryOperator'}, 'attrs': DERIVE_KIND},
+    'BinaryOperator': {'src': {'file': KO, 'kind': 'enum', 'name': 'BinaryOperator'}, 'attrs': DERIVE_KIND},
+    'UNARY_PRIORITY': {'src': {'file': KO, 'kind': 'const', 'name': 'UNARY_PRIORITY'}},
+    'PriorityTable': {'src': {'file': KM, 'kind': 'struct', 'name': 'PriorityTable'}},
+    'LuaTypeUnaryOperator': {'src': {'file': KT, 'kind': 'enum', 'name': 'LuaTypeUnaryOperator'}, 'attrs': DERIVE_KIND},
+    'LuaTypeBinaryOperator': {'src': {'file': KT, 'kind': 'enum', 'name': 'LuaTypeBinaryOperator'}, 'attrs': DERIVE_KIND},
+    'LuaTypeTernaryOperator': {'src': {'file': KT, 'kind': 'enum', 'name': 'LuaTypeTernaryOperator'}, 'attrs': DERIVE_KIND},
+    'LuaOpKind': {'src': {'file': KM, 'kind': 'enum', 'name': 'LuaOpKind'}},
+    'LuaOpKind::to_unary_operator': {
+        'src': {'file': KM, 'kind': 'fn', 'impl': 'LuaOpKind', 'name': 'to_unary_operator'}, 'place': False, 'ret': 'r',
+        'ensures': 'kind is TkEof ==> r is OpNop'},
+    'LuaOpKind::to_binary_operator': {
+        'src': {'file': KM, 'kind': 'fn', 'impl': 'LuaOpKind', 'name': 'to_binary_operator'}, 'place': False, 'ret': 'r',
+        'ensures': 'kind is TkEof ==> r is OpNop'},
+}
+SHIMS = ['shared_shims.rs', 'expr_shims.rs']
+LEMMAS = None
+
+# what the expr side needs from the fns of stat.rs / mod.rs beyond what stat_items.py says (see REQUESTS_TO_STAT.md). stat_items.py
+# already gives: parse_block / expect_token / if_token_bump `requires nosoft, gfirst [, !(token is TkEof)]`, `ensures nosoft`,
+# expect_token `Err ==> *final(p) == *old(p)`, `Ok ==> gprog`, if_token_bump `r ==> gprog`, `!r ==> *final(p) == *old(p)`.
+CROSS_NEEDS = {
+    # no progress => current token kind unchanged (every expr fn ensures gkeep; parse_closure_expr / parse_short_function call parse_block)
+    'parse_block': {'ensures': 'gkeep(old(p), final(p))'},
+    # the converse of `r ==> ..`: at the token, it IS consumed (progress of parse_closure_expr at TkFunction: termination of the recursion
+    # parse_simple_expr -> parse_closure_expr -> parse_block -> .. -> parse_simple_expr, and C02.expr.progress of parse_expr)
+    'if_token_bump': {'ensures': 'old(p).current_token == token ==> ' + PROG},
+}
+
+def _mut(name, fn, pattern, repl, expect):
+    return {'name': name, 'item': 'g::' + fn, 'pattern': pattern, 'repl': repl, 'expect': expect}
+
+
+MUTANTS = [
+    # ---- termination of the recursion (decreases grem(old(p)), rank) ----
+    _mut('ge-unary-no-bump', 'parse_sub_expr', r'p\.bump\(\);(\s*match parse_sub_expr\(p, UNARY_PRIORITY\))', r'\1', r'parse_sub_expr:could-not-prove-termination'),
+    _mut('ge-paren-no-bump', 'parse_suffixed_expr', r'p\.bump\(\);(\s*p\.enter_paren\(\);\s*match parse_expr\(p\))', r'\1', r'parse_suffixed_expr:could-not-prove-termination'),
+    _mut('ge-field-reparse-table', 'parse_field_with_recovery', r'LuaTokenKind::TkEof \| LuaTokenKind::TkLocal => \{', r'LuaTokenKind::TkEof | LuaTokenKind::TkLocal => { let _ = parse_table_expr(p);',
+         r'parse_field_with_recovery:(could-not-prove-termination|precondition)'),
+    # ---- progress of the loops ----
+    _mut('ge-binop-no-bump', 'parse_sub_expr', r'p\.bump\(\);(\s*match parse_sub_expr\(p, bop\.get_priority\(\)\.right\))', r'\1', r'C02\.expr\.binop-loop-terminates|parse_sub_expr:could-not-prove-termination'),
+    _mut('ge-ternary-no-bump', 'parse_sub_expr', r"p\.bump\(\); // consume '\?'", '', r'C02\.expr\.binop-loop-terminates|parse_sub_expr:could-not-prove-termination'),
+    _mut('ge-recover-no-bump', 'recover_to_table_boundary', r'p\.bump\(\);', '', r'C02\.expr\.recovery-loop-terminates'),
+    _mut('ge-recover-no-eof-stop', 'recover_to_table_boundary', r'\s*\| LuaTokenKind::TkEof', '', r'recover_to_table_boundary:precondition-not-satisfied\{p\.bump'),
+    _mut('ge-field-recovery-no-eof-stop', 'parse_field_with_recovery', r'(TkRightBrace)\s*\| LuaTokenKind::TkEof', r'\1', r'parse_field_with_recovery:precondition-not-satisfied\{p\.bump'),
+    _mut('ge-param-recovery-no-eof-stop', 'parse_param_list', r'(TkRightParen)\s*\| LuaTokenKind::TkEof', r'\1', r'parse_param_list:precondition-not-satisfied\{p\.bump'),
+    _mut('ge-args-recovery-no-eof-stop', 'parse_args', r'(TkRightParen)\s*\| LuaTokenKind::TkEof', r'\1', r'parse_args:precondition-not-satisfied\{p\.bump'),
+    _mut('ge-args-continue-no-bump', 'parse_args', r'p\.bump\(\);(\s*continue;)', r'\1', r'parse_args:decreases-not-satisfied-at-continue|C02\.expr\.args-loop-terminates'),
+    _mut('ge-table-sep-no-bump', 'parse_table_expr', r'p\.bump\(\); // consume separator', '', r'C02\.expr\.field-loop-terminates|parse_table_expr:could-not-prove-termination'),
+    _mut('ge-lookahead-no-count', 'parse_table_expr', r'lookahead_count \+= 1;', '', r'C02\.expr\.lookahead-loop-terminates'),
+    _mut('ge-suffix-call-no-progress', 'parse_args', r'(LuaTokenKind::TkString \| LuaTokenKind::TkLongString => \{\s*let m1 = p\.mark\(LuaSyntaxKind::LiteralExpr\);)\s*p\.bump\(\);', r'\1',
+         r'C02\.expr\.progress'),
+    _mut('ge-param-comma-no-bump', 'parse_param_list', r'(if p\.current_token\(\) == LuaTokenKind::TkComma \{)\s*p\.bump\(\);', r'\1', r'C02\.expr\.param-loop-terminates'),
+    # ---- preconditions of the driver / marker API (no panic) ----
+    _mut('ge-field-double-bump-unguarded', 'parse_field_with_recovery', r'if p\.peek_next_token\(\) == LuaTokenKind::TkAssign \{', 'if p.peek_next_token() != LuaTokenKind::TkAssign {',
+         r'parse_field_with_recovery:precondition-not-satisfied\{p\.bump'),
+    _mut('ge-table-bump-at-eof', 'parse_args', r'LuaTokenKind::TkLeftBrace => match parse_table_expr\(p\)', '_ => match parse_table_expr(p)', r'parse_args:precondition-not-satisfied\{parse_table_expr'),
+    _mut('ge-param-list-eof-close', 'parse_short_function', r'parse_param_list\(p, LuaTokenKind::TkBitOr, LuaTokenKind::TkBitOr\)', 'parse_param_list(p, LuaTokenKind::TkBitOr, LuaTokenKind::TkEof)',
+         r'parse_short_function:precondition-not-satisfied\{parse_param_list'),
+    _mut('ge-extra-node-end', 'parse_param_name', r'(p\.bump\(\);\s*\}\s*LuaTokenKind::TkDots)', r'p.bump(); p.push_node_end(); p.push_node_end(); } LuaTokenKind::TkDots',
+         r'parse_param_name:precondition-not-satisfied'),
+    _mut('ge-precede-dead-marker', 'parse_name_or_special_function', r'let m1 = cm\.precede\(p, special_kind\);', 'let m1 = CompleteMarker { start: cm.start + 1, kind: cm.kind }.precede(p, special_kind);',
+         r'parse_name_or_special_function:precondition-not-satisfied'),
+    _mut('ge-set-kind-after-undo-position', 'parse_table_expr', r'let mut m = p\.mark\(LuaSyntaxKind::TableEmptyExpr\);', 'let mut m = p.mark(LuaSyntaxKind::TableEmptyExpr); m.position += 1;',
+         r'parse_table_expr:precondition-not-satisfied'),
+    _mut('ge-special-text-at-eof', 'parse_suffixed_expr', r'LuaTokenKind::TkName => parse_name_or_special_function\(p\)\?,', 'LuaTokenKind::TkName | LuaTokenKind::TkEof => parse_name_or_special_function(p)?,',
+         r'parse_suffixed_expr:precondition-not-satisfied\{parse_name_or_special_function'),
+    _mut('ge-short-function-wrong-token', 'parse_simple_expr', r'LuaTokenKind::TkLogicalOr \| LuaTokenKind::TkBitOr(\s*if)', r'LuaTokenKind::TkLogicalOr | LuaTokenKind::TkBitOr | LuaTokenKind::TkEof\1',
+         r'parse_simple_expr:precondition-not-satisfied\{parse_short_function'),
+    _mut('ge-brace-count-underflow', 'parse_table_expr', r'let mut brace_count = 1;', 'let mut brace_count = i32::MIN;', r'parse_table_expr:.*(overflow|underflow|arithmetic)'),
+]
 TRUSTED = []
 ALLOW = []
 NOT_COVERED = []
-ITEMS = {
-}
